@@ -20,7 +20,9 @@ RULE = ("pairwise-distinct point clouds (3..30 points; scatter / jittered grid /
         "Vector(Spline, Spline), Vector(KNeighbors, Cubic), Chain(Vector(Trend, Trend), VectorSpline2D), all fitted and predicted "
         "at the same points; every stream has a 'prefit' variant in which the SAME estimator instance (or composite) is first fitted "
         "to a different cloud with fewer or more points (VectorSpline2D, which documents that it keeps its first force locations, "
-        "gets them explicitly there); a fixed stream of 4 thin two-cluster layouts x {Linear, Cubic}(rescale=False) (known finding F17: NaN at "
+        "gets them explicitly there); Spline / VectorSpline2D forces are the copied data points (force_coords=None), the SAME points "
+        "passed through force_coords shuffled or sorted, or a separate set of the same size (square system); documented special "
+        "values are hit exactly in a fixed share of cases (poisson -1, 0, 1, 0.5; mindist None, 0, the default 10e3); a fixed stream of 4 thin two-cluster layouts x {Linear, Cubic}(rescale=False) (known finding F17: NaN at "
         "a data point); Trend of degree 0..4 fitted to a random polynomial of total degree <= N and evaluated at OTHER points. "
         "Coq evaluates on exact dyadics |predict - truth| <= 1e3 * 2^-52 * kappa * max|truth| (kappa = condition number of the "
         "column-scaled system from numpy SVD, passed exactly; kappa > 1e12 -> counted skip); for the least-squares interpolators "
@@ -129,33 +131,78 @@ def skip_case(inp, out, repro, stream):
     return Case(inp, out, "Vskip", repro, stream + "/skip-illconditioned", nontrivial=False)
 
 
+def spline_kernel(e, nn, fe, fn, mindist):
+    """independent numpy evaluation of the biharmonic Green's function matrix r^2 (log r - 1) (0 at r = 0): used only for
+    the condition number that sets the tolerance / the skip, so that a wrong jacobian() cannot hide behind a skip"""
+    r = np.hypot(e[:, None] - fe[None, :], nn[:, None] - fn[None, :]) + (0.0 if mindist is None else mindist)
+    with np.errstate(divide="ignore", invalid="ignore"):
+        g = np.where(r > 0, r * r * (np.log(np.where(r > 0, r, 1.0)) - 1.0), 0.0)
+    return g
+
+
+FORCE_MODES = ["none", "permuted", "none", "separate-same-size", "none", "sorted"]
+POISSON_SPECIAL = [-1.0, 0.0, 1.0, 0.5]
+
+
+def forces_for(rnd, mode, coords):
+    """force_coords for an exact interpolator: None (copied data points), the SAME set of points in another order
+    (shuffled / sorted by easting), or a separate set of the same size (square system: still exact)"""
+    e, nn = np.ravel(coords[0]), np.ravel(coords[1])
+    if mode == "permuted":
+        idx = list(range(e.size))
+        rnd.shuffle(idx)
+        if idx == sorted(idx) and e.size > 1:
+            idx = idx[1:] + idx[:1]
+        return e[idx].copy(), nn[idx].copy()
+    if mode == "sorted":
+        idx = np.argsort(e, kind="stable")[::-1]
+        return e[idx].copy(), nn[idx].copy()
+    if mode == "separate-same-size":
+        fe = e.min() + (e.max() - e.min()) * np.array([rnd.uniform(-0.05, 1.05) for _ in range(e.size)])
+        fn = nn.min() + (nn.max() - nn.min() + (e.max() - e.min()) * 1e-3) * np.array([rnd.uniform(-0.05, 1.05) for _ in range(e.size)])
+        return fe, fn
+    return None
+
+
 def spline_case(rnd, i, vector):
     n = rnd.randint(3, 12) if vector else rnd.randint(3, 22)
     e, nn, scale, layout = cloud(rnd, n)
+    prefit_flag = bool(i % 2)
+    mode = FORCE_MODES[(i // 2) % len(FORCE_MODES)]
     if vector:
-        poisson = rnd.choice([-1.0, 1.0, 0.5, 0.0]) if i % 3 == 0 else rnd.uniform(-1, 1)
-        mind = scale * 10.0 ** rnd.uniform(-3, -0.5)
+        # documented special Poisson ratios (exactly -1: uncoupled, 0, 1, the default 0.5) in every third case
+        poisson = POISSON_SPECIAL[(i // 3) % 4] if i % 3 == 0 else rnd.uniform(-1, 1)
+        mind = 10e3 if i % 5 == 4 else scale * 10.0 ** rnd.uniform(-3, -0.5)      # 10e3 is the documented default
         arrs = shape2d(rnd, [e, nn, rdata(rnd, n), rdata(rnd, n)])
         coords, data = (arrs[0], arrs[1]), (arrs[2], arrs[3])
+        fcs = forces_for(rnd, mode, coords)
         # VectorSpline2D documents that it keeps the force locations of its FIRST fit: in the prefit variant the
-        # forces are therefore given explicitly (at the measured points) so that the documented memory is not an alarm
-        expr = "vd.VectorSpline2D(poisson=%r, mindist=%r%s)" % (poisson, mind, (", force_coords=" + fc_literal(coords)) if i % 2 else "")
+        # forces are therefore always given explicitly so that the documented memory is not an alarm
+        if fcs is None and prefit_flag:
+            fcs = (np.ravel(coords[0]).copy(), np.ravel(coords[1]).copy())
+        expr = "vd.VectorSpline2D(poisson=%r, mindist=%r%s)" % (poisson, mind, "" if fcs is None else ", force_coords=" + fc_literal(fcs))
     else:
-        mind = rnd.choice([None, None, 0.0, 1e-6 * scale, 1e-2 * scale])
-        expr = "vd.Spline(mindist=%r)" % (mind,)
+        mind = [None, 0.0, None, 1e-6 * scale, None, 1e-2 * scale][i % 6]
         arrs = shape2d(rnd, [e, nn, rdata(rnd, n)])
         coords, data = (arrs[0], arrs[1]), arrs[2]
-    prefit = other_set(rnd, n, vector) if i % 2 else None
+        fcs = forces_for(rnd, mode, coords)
+        expr = "vd.Spline(mindist=%r%s)" % (mind, "" if fcs is None else ", force_coords=" + fc_literal(fcs))
+    prefit = other_set(rnd, n, vector) if prefit_flag else None
     est, pred = run(expr, coords, data, prefit)
     # certificate: Jacobian for the estimator's CURRENT force coordinates; conditioning (tolerance / skip): the system
-    # the user configured - forces at the measured points - so that stale state cannot hide behind a skip
+    # the user configured (forces at the measured points, in the configured order, or the separate set) - evaluated
+    # independently of jacobian() for the scalar spline - so that stale state or a wrong Jacobian cannot hide behind a skip
     fc = est.force_coords if vector else est.force_coords_
     A = np.array(est.jacobian(coords, fc), dtype=float)
-    kap = kappa_scaled(np.array(est.jacobian(coords, tuple(np.ravel(c) for c in coords)), dtype=float))
+    conf_fc = fcs if fcs is not None else tuple(np.ravel(c) for c in coords)
+    if vector:
+        kap = kappa_scaled(np.array(est.jacobian(coords, conf_fc), dtype=float))
+    else:
+        kap = kappa_scaled(spline_kernel(np.ravel(coords[0]), np.ravel(coords[1]), conf_fc[0], conf_fc[1], mind))
     d = flat(data)
     p = np.array(est.force_, dtype=float)
-    stream = ("vector-spline" if vector else "spline") + ("-prefit" if prefit is not None else "")
-    inp = {"estimator": expr, "coordinates": tolist(coords), "data": tolist(data), "layout": layout,
+    stream = ("vector-spline" if vector else "spline") + ("" if mode == "none" else "-forces-" + mode) + ("-prefit" if prefit is not None else "")
+    inp = {"estimator": expr, "coordinates": tolist(coords), "data": tolist(data), "layout": layout, "force_mode": mode,
            "fitted_before_to": None if prefit is None else {"coordinates": tolist(prefit[0]), "data": tolist(prefit[1])}}
     out = {"max_abs_misfit": float(np.max(np.abs(flat(pred) - d))), "kappa": kap, "n_forces": int(p.size)}
     repro = mk_repro(expr, coords, data, prefit)
@@ -182,6 +229,18 @@ def knn_case(rnd, i):
                 term, mk_repro(expr, coords, data, prefit), "kneighbors" + ("-prefit" if prefit is not None else ""), nontrivial=n > 1)
 
 
+def nan_report(coords, pf):
+    """which data points were predicted non-finite, and whether they are vertices of the convex hull of the cloud"""
+    from scipy.spatial import ConvexHull
+    bad = np.flatnonzero(~np.isfinite(pf))
+    try:
+        hull = set(int(v) for v in ConvexHull(np.column_stack([np.ravel(coords[0]), np.ravel(coords[1])])).vertices)
+        on_hull = bool(all(int(b) in hull for b in bad))
+    except Exception:
+        on_hull = False
+    return {"non_finite_predictions": int(bad.size), "at_data_points": bad.tolist(), "all_on_convex_hull": on_hull}
+
+
 def scipy_case(rnd, i):
     n = rnd.randint(4, 30)
     e, nn, scale, layout = cloud(rnd, n, collinear_ok=False)
@@ -199,7 +258,7 @@ def scipy_case(rnd, i):
         return Case(inp, {"raised": type(exc).__name__}, "Vskip", repro, kind.lower() + "/skip-qhull-error", nontrivial=False)
     pf = flat(pred)
     if not np.all(np.isfinite(pf)):
-        return Case(inp, {"non_finite_predictions": int(np.sum(~np.isfinite(pf)))}, "Vviol", repro, kind.lower() + "/nan-at-data-point")
+        return Case(inp, nan_report(coords, pf), "Vviol", repro, kind.lower() + "/nan-at-data-point")
     term = "c01_passthrough %s %s" % (dl(data), dl(pf))
     return Case(inp, {"max_abs_misfit": float(np.max(np.abs(pf - flat(data))))}, term, repro,
                 kind.lower() + ("-prefit" if prefit is not None else ""), nontrivial=True)
@@ -325,9 +384,9 @@ def generate(tier, seed):
     rnd = random.Random(seed)
     q = tier == "quick"
     cases = []
-    for i in range(16 if q else 160):
+    for i in range(24 if q else 192):
         cases.append(spline_case(rnd, i, vector=False))
-    for i in range(12 if q else 120):
+    for i in range(24 if q else 144):
         cases.append(spline_case(rnd, i, vector=True))
     for i in range(12 if q else 120):
         cases.append(knn_case(rnd, i))
@@ -369,8 +428,7 @@ def thin_cases():
             est, pred = run(expr, (e, nn), data)
             pf = flat(pred)
             if not np.all(np.isfinite(pf)):
-                bad = np.flatnonzero(~np.isfinite(pf))
-                cases.append(Case(inp, {"non_finite_predictions": int(bad.size), "at_data_points": bad.tolist()}, "Vviol", repro,
+                cases.append(Case(inp, nan_report((e, nn), pf), "Vviol", repro,
                                   "%s/%s/nan-at-data-point" % (THIN_STREAM, kind.lower())))
             else:
                 cases.append(Case(inp, {"max_abs_misfit": float(np.max(np.abs(pf - data)))},
@@ -379,11 +437,12 @@ def thin_cases():
 
 
 def finding_key(case):
-    # only the narrow signature of the reported scipy behaviour: ONE data point (a hull vertex) predicted NaN by a
-    # plain Linear/Cubic with rescale=False; anything broader (many NaNs, other estimators) stays a violation
+    # only the narrow signature of the reported scipy behaviour: exactly ONE data point, a vertex of the convex hull,
+    # predicted NaN by a plain Linear/Cubic (it also happens, rarely, with rescale=True and ordinary scatters: see the
+    # 16-point witness in the report); anything broader (several NaNs, interior points, composites) stays a violation
     if case.kind in ("linear/nan-at-data-point", "cubic/nan-at-data-point", THIN_STREAM + "/linear/nan-at-data-point",
-                     THIN_STREAM + "/cubic/nan-at-data-point") and "rescale=False" in case.inp["estimator"] \
-            and isinstance(case.out, dict) and case.out.get("non_finite_predictions") == 1:
+                     THIN_STREAM + "/cubic/nan-at-data-point") \
+            and isinstance(case.out, dict) and case.out.get("non_finite_predictions") == 1 and case.out.get("all_on_convex_hull") is True:
         return "C01-scipy-find_simplex-misses-hull-vertex"
     return None
 
